@@ -48,6 +48,24 @@ CLAIMS = {
  "C12": ("proof", "Theorems: one triple per canonical column; (x,y) of column j is the CGR end point of that k-mer's text and does not depend on the record; f equals the oligo entry (C04 transfer). Correspondence bit for bit at record and file level, and f cross-checked against the oligo vector on the implementation.",
          "7 C12", "as C04 and C11.",
          "Coq proof (C04/C11 transfer) + bit-exact differential correspondence"),
+ "C06": ("proof", "Theorems: FASTA and FASTQ round trips of the line-parser model for ALL well-formed record lists printed with any whitespace line terminators, any line wrapping, optional descriptions, records without bases (FASTA), quality lines starting with @ or +; stream -> lines lemma; all gzip members are read; numbering 0,1,2,...; suffix table regenerated from SeqFormat::get and proved equal to the documented suffixes. Correspondence: the real reader and statistics pass on generated files (plain / gzip with 1..6 members, stored and deflated) against the parser model AND the generating list.",
+         "7 C06", "bio 2.0.3's parsers are third-party code modelled from their source; the DEFLATE codec is not modelled (member structure only); non-UTF-8 input is outside 'well-formed'.",
+         "Coq proof (induction over the printed record list) + differential correspondence against model and generating list"),
+ "C13": ("proof", "Theorems: every byte of the UTF-8 encoding of a non-ASCII code point is >= 128, such bytes are ambiguous for all three iterators and have no CGR corner (table facts), batch = map. The binding is checked against the SAME extracted models as the core (py: case lines dispatch to the core ops on the UTF-8 bytes): tuples, vectors as bit patterns, headers, ValueError, batch order, iterators used after the source string was released.",
+         "7 C13", "memory safety of the transmuted lifetime and 'never crashes the interpreter' are runtime behaviour a Gallina model cannot exhibit (exercised: interpreter death is reported): partial.",
+         "Coq proof (UTF-8 lemma, table facts) + differential correspondence of the built extension against the core models"),
+ "C14": ("proof", "Theorems: every index used unchecked is in bounds - canonical code < 4^k = |pos_map|, column < column count = |vec|, coverage bin < bin-count (bin-count >= 1), partition < n_parts; mapped layout for ANY delimiter length: rows inside the mapping, tiling exactly, never overlapping; numbers are 8 characters wide for frequencies. Tied to the code by the hook log: every logged (index, len) and (pos, len, cap) must be in bounds, the writes must tile the file, and their counts must equal the model's.",
+         "7 C14", "only hooked sites are observed; the effect of an out-of-bounds write is not modelled (we show there is none); 'frequency times 10^6 rounds to at most 10^6' rests on the validated Flocq model.",
+         "Coq proof (index and layout arithmetic) + runtime log checked against the model (cfg(kmertools_verif) hooks, debug build)"),
+ "C15": ("proof", "Thin theorems over the cli() model: clap ranges/defaults, preset arms and refusals regenerated from args.rs and proved equal to the documented ones; presets only pick the delimiter, -H / --counts / -t as documented (for every accepted k, preset, flag and thread value, arbitrary writer); out-of-range values and windows not longer than the minimiser are refused. The weight is on the tie: the binary over the option matrix against model (regenerated data) and spec (documented data), thread-count and CLI-vs-library agreement on the implementation.",
+         "7 C15", "argv construction and output canonicalisation are harness code (trusted).",
+         "Coq proof (finite enumeration lifted by vm_compute, regenerated-data facts) + differential correspondence of the binary"),
+ "C16": ("proof", "Theorems for ALL record lists: one LF-terminated row per record for oligo and coverage, coverage writer drops no record for any limit (D5), one s2m line per record, whole-read window never below m (D6), CGR gives one row per record or refuses exactly when a record holds a non-nucleotide byte, empty input gives empty output (D4); termination by structural recursion. Correspondence: degenerate matrix on binary and library, debug and release, with explicit row-count / NUL / placeholder scans.",
+         "7 C16", "runtime aborts and hangs not caused by the modelled logic are outside the model: partial.",
+         "Coq proof (structure of the total pipeline models) + degenerate-input correspondence incl. debug/release agreement"),
+ "C17": ("proof", "Theorems on a file-system model (create/truncate replaces content; a run touches only its own temp files): the result files after any history of runs equal those of the last run in a fresh location. Correspondence: histories of 2-3 runs of the binary sharing a location, with stale chunk files, a stale counts table and a longer stale vectors file planted, against the model of the last run alone.",
+         "7 C17", "OS file semantics (truncate, set_len, unlink, mmap) are assumed, not modelled.",
+         "Coq proof (file-system model, induction over the history) + history replay on the binary"),
 }
 
 REASONS_PENDING = "check not built yet in this snapshot (planned: see DESIGN.md section 7); not claimed until its proof and correspondence run"
@@ -75,6 +93,7 @@ def main():
                {"name": "coq", "path": "coq/", "serves_properties": sorted(CLAIMS), "kind_free_text": "Coq 8.16.1 development: models, specs, proofs, pinned property theorems with Print Assumptions; regenerated Gen/Generated.v"},
                {"name": "ocaml-driver", "path": "ocaml/driver.ml", "serves_properties": sorted(CLAIMS), "kind_free_text": "I/O glue around Extract/Dispatch.v extracted with ExtrOcamlBasic"},
                {"name": "harness", "path": "harness/", "serves_properties": sorted(CLAIMS), "kind_free_text": "Rust executor of case lines linked against /repo's crates with --cfg kmertools_verif"},
+               {"name": "pyexec", "path": "tools/pyexec.py", "serves_properties": ["C13"], "kind_free_text": "executor of py: case lines on the Python extension built from the working tree"},
                {"name": "check", "path": "check", "serves_properties": sorted(CLAIMS), "kind_free_text": "orchestrator: translator, staged Coq build, audits, generators, comparison, shrinking, evidence"}],
            "checks": checks,
            "notes": "Known findings: known_findings.txt. All seven defects found during the design (D1-D7) were repaired by fix: commits in /repo; their witnesses are in corpus/.",
